@@ -24,6 +24,9 @@ type EdgeRule struct {
 	Rel      map[string]string // Type/Subtype/Name relation
 	Weight   int64
 	WeightOK bool
+	// when the edge is added inside a private helper between the helper's parameters, Call/Fn are the helper's call
+	// site (one rule per site); Inner is the AddEdge call itself
+	Inner ssa.CallInstruction
 	Reweight bool // re-weights an existing edge (endpoints = element of InEdges(x), x)
 	Class    string
 	Lits     []core.Lit
@@ -55,10 +58,11 @@ func (c *Ctx) edgeRules() []EdgeRule {
 	addEdgeWeight, addEdgeOK := c.addEdgeSummary()
 	var out []EdgeRule
 	type edgeSite struct {
-		call ssa.CallInstruction
-		a    []ssa.Value
-		lits []core.Lit
-		pos  string
+		call  ssa.CallInstruction
+		a     []ssa.Value
+		lits  []core.Lit
+		pos   string
+		inner ssa.CallInstruction
 	}
 	for _, f := range p.ArgFuncs() {
 		var esites []edgeSite
@@ -75,7 +79,7 @@ func (c *Ctx) edgeRules() []EdgeRule {
 				}
 			}
 			if !bound {
-				esites = append(esites, edgeSite{call, a, core.Lits(core.Guards(call.Block())), p.InstrPos(call)})
+				esites = append(esites, edgeSite{call, a, core.Lits(core.Guards(call.Block())), p.InstrPos(call), call})
 				continue
 			}
 			for _, site := range p.Callers(f) {
@@ -94,13 +98,13 @@ func (c *Ctx) edgeRules() []EdgeRule {
 					b = append(b, p.Bind(core.Strip(sub(x))))
 				}
 				lits := append(core.Lits(core.Guards(call.Block())), core.Lits(core.Guards(site.Block()))...)
-				esites = append(esites, edgeSite{site, b, lits, p.InstrPos(site)})
+				esites = append(esites, edgeSite{site, b, lits, p.InstrPos(site), call})
 			}
 		}
 		for _, es := range esites {
 			call, a := es.call, es.a
 			ef := call.Parent()
-			e := EdgeRule{Fn: ef, Call: call, Pos: es.pos, C: a[1], P: a[2], Rel: map[string]string{}}
+			e := EdgeRule{Fn: ef, Call: call, Pos: es.pos, C: a[1], P: a[2], Rel: map[string]string{}, Inner: es.inner}
 			e.Role = roleOf[core.Outer(ef)]
 			if e.Role == "" {
 				e.Role = core.FuncName(ef)
